@@ -27,6 +27,7 @@ EXPLANATION = (
     "than the two documented ones leaves a callback after it cancelled the timer. Timing and exact counts under fault scripts are not decided."
     ' (R7) a callback stores _retry = 0 only on paths on which it also completes the request (result / exception set, future found done or absent): a reset followed by a cancellation would re-enter the retry branch with a fresh budget.'
     ' A call that names a package class or function directly without its required arguments (call arity) is a TypeError source in the exception summaries the callback rules use.'
+    " (R4 retry-store) the transmission counter is only ever assigned '= 0' or '+= 1' in the protocol classes."
 )
 
 
@@ -44,6 +45,7 @@ def check(ctx: Ctx, rep: Report):
         r3(ctx, rep, ci)
         r4(ctx, rep, ci)
     r5(ctx, rep)
+    retry_stores(ctx, rep)
     for ci in proto_classes(ctx):
         r7(ctx, rep, ci)
     # ---- R6 shared with C01
@@ -53,6 +55,44 @@ def check(ctx: Ctx, rep: Report):
     c01_r4(ctx, sub, ctx.memo("families", lambda: families(ctx.prog, ctx.res)))
     for o in sub.obligations:
         rep.obligations.append(type(o)("C04.R6", o.key, o.where, o.what, o.status, o.detail))
+
+
+def retry_stores(ctx, rep):
+    """The per-request transmission counter only ever starts at 0 and grows by 1: every assignment of self._retry in
+    the protocol classes is '= 0' or '+= 1'.  (A negative start value buys extra transmissions beyond retries + 1.)"""
+    from ..astutil import self_store
+    prog = ctx.prog
+    seen = set()
+    n = 0
+    for ci in list.__iter__(proto_classes(ctx)):
+        for c in prog.mro(ci):
+            if not hasattr(c, "methods"):
+                continue
+            for m in c.methods.values():
+                if m.qualname in seen:
+                    continue
+                seen.add(m.qualname)
+                for st in [x for x in ast.walk(m.node) if isinstance(x, ast.stmt)]:
+                    for a, v, kind in self_store(st):
+                        if a != "_retry":
+                            continue
+                        n += 1
+                        if kind == "aug":
+                            ok = isinstance(st, ast.AugAssign) and isinstance(st.op, ast.Add) and _cv(prog, m, st.value) == 1
+                        else:
+                            ok = v is not None and (_cv(prog, m, v) == 0 or (isinstance(v, ast.BinOp) and isinstance(v.op, ast.Add) and {norm(v.left), norm(v.right)} & {"self._retry"}
+                                                                              and 1 in (_cv(prog, m, v.left), _cv(prog, m, v.right))))
+                        rep.check(ok, "C04.R4", "retry-store:%s:%s" % (m.short, norm(st)[:40]), m.loc(st), "%s: %s" % (m.short, norm(st)),
+                                  bad="%s assigns the transmission counter with '%s' (only '= 0' and '+= 1' keep a request at retries + 1 transmissions)" % (m.short, norm(st)))
+    if n < 4:
+        raise AnalysisError("only %d assignments of self._retry found in the protocol classes" % n)
+
+
+def _cv(prog, fn, e):
+    try:
+        return prog.consteval(e, fn.module)
+    except Exception:
+        return None
 
 
 def r1(ctx, rep, ci):
